@@ -89,6 +89,11 @@ def select(sims, n, rng):
 
 
 def execute(behaviours, d, timeout=1500):
+    for b in behaviours:
+        # the minimum ISR reaches the partition either through the server setting or through the stream's
+        # own override; both routes are exercised (alternating by behaviour id)
+        b['cfg'] = dict(b['cfg'])
+        b['cfg'].setdefault('minVia', 'stream' if b['id'] % 2 else 'server')
     stim = os.path.join(d, 'stim.json')
     trace = os.path.join(d, 'trace.ndjson')
     core.write_json(stim, {'behaviours': behaviours})
